@@ -190,6 +190,9 @@ struct Inner {
     dev_file: Option<std::fs::File>,
     last_progress_us: u64,
     finished: bool,
+    /// simulated time added by injected faults (stalls, late starts, late timers): the
+    /// simulated-time cap is there to catch code that waits for ever, not our own delays
+    injected_us: u64,
 }
 
 pub struct Runtime {
@@ -298,6 +301,7 @@ impl Runtime {
             dev_file,
             last_progress_us: 0,
             finished: false,
+            injected_us: 0,
         };
         inner
     }
@@ -435,7 +439,11 @@ impl Runtime {
             Sched::Explicit => {
                 let d = g.dev_map.get(&step)?;
                 match &d.fault {
-                    Some((k, ms)) if k == kind => Some(*ms),
+                    Some((k, ms)) if k == kind => {
+                        let ms = *ms;
+                        g.injected_us += ms * 1000;
+                        Some(ms)
+                    }
                     _ => None,
                 }
             }
@@ -443,6 +451,7 @@ impl Runtime {
             _ => {
                 if p > 0.0 && max_ms > 0 && g.rng.chance(p) {
                     let ms = 1 + g.rng.below(max_ms);
+                    g.injected_us += ms * 1000;
                     Self::record_dev(g, step, None, Some((kind.to_string(), ms)));
                     Some(ms)
                 } else {
@@ -465,7 +474,7 @@ impl Runtime {
         if g.step >= g.cfg.step_cap {
             self.abort(g, "step_cap");
         }
-        let cap_us = g.cfg.sim_time_cap.as_micros() as u64;
+        let cap_us = (g.cfg.sim_time_cap.as_micros() as u64).saturating_add(g.injected_us);
         loop {
             // wake sleepers whose time has come
             let now = g.now_us;
